@@ -55,17 +55,20 @@ def main():
     src = "/tmp/seed-%s/OUT" % pid
     checks = [pid]
     recheck = False
+    name = pid
+    if "--name" in sys.argv: name = sys.argv[sys.argv.index("--name") + 1]
     a = sys.argv[2:]
     while a:
         if a[0] == "--src": src = a[1]; a = a[2:]
         elif a[0] == "--checks": checks = a[1].split(","); a = a[2:]
         elif a[0] == "--recheck": recheck = True; a = a[1:]
+        elif a[0] == "--name": name = a[1]; a = a[2:]
         else: a = a[1:]
     if "--recheck" in sys.argv and not os.path.isdir(src):
-        src = "/verif/seeded/%s" % pid
+        src = "/verif/seeded/%s" % name
     meta = json.load(open(os.path.join(src, "meta.json")))
     if "--recheck" in sys.argv:
-        return recheck_only(pid, src, meta, checks if "--checks" in sys.argv else [pid])
+        return recheck_only(name, src, meta, checks if "--checks" in sys.argv else [pid])
     demo_cmd = open(os.path.join(src, "demo_cmd.txt")).read().strip().split("\n")[-1].strip()
     wt = "/tmp/sv-%s" % pid
     tgt = "/tmp/sv-%s-target" % pid
@@ -123,7 +126,7 @@ def main():
             res["checks"][c] = {"exit": rc, "lines": lines}
     finally:
         sh(["git", "-C", "/repo", "checkout", "--", "."])
-    dst = "/verif/seeded/%s" % pid
+    dst = "/verif/seeded/%s" % name
     os.makedirs(dst, exist_ok=True)
     for f in ("patch.diff", "demo.rs", "demo_cmd.txt"):
         shutil.copy(os.path.join(src, f), os.path.join(dst, f))
